@@ -310,7 +310,7 @@ def first_difference(a, b, path="$"):
 
 # ------------------------------------------------------------------------------------------ shrinking
 
-def shrink(check, text, clause, budget=120):
+def shrink(check, text, clause, budget=200):
     """Greedy removal of statements / decay lines while the same clause keeps failing."""
     def still(t):
         try:
@@ -413,8 +413,10 @@ def summarise(check, name, function, bound, rule, results, exhaustive, max_failu
                 inp["text"] = shrink(check, r["text"], x["clause"])
                 again = check_text(check, inp["text"])
                 x = next((y for y in again["failures"] if y["clause"] == x["clause"]), x)
-            failures.append(dict(function=x["function"], clause=x["clause"], what=x["what"], input=inp,
-                                 replay={"module": f"checks.{check}", "function": "replay"}))
+            rec = dict(function=x["function"], clause=x["clause"], what=x["what"], input=inp,
+                       replay={"module": f"checks.{check}", "function": "replay"})
+            if not any(o["clause"] == rec["clause"] and o["input"] == inp for o in failures):
+                failures.append(rec)
     entry = dict(name=name, function=function, bound=bound, evaluations=evaluations, distinct_nontrivial=distinct,
                  rule=rule, exhaustive=exhaustive, decay_lines_compared=lines, families=fam_counts,
                  failure_counts={f"{k[0]} :: {k[1]}": v for k, v in seen.items()},
